@@ -214,6 +214,17 @@ def pNext (s : PState) (fails : List Bool) : PState × List Bool × Option (Nat 
                        nd := s.nd + 1, next := i + 1 }, fails, some (i, wg))
   go n 0 s fails
 
+/-- `k` successive calls of `Next` against one stream of reservation outcomes (the stream is
+    threaded through the calls; a call that dispatches nothing — every offer refused, or the kernel
+    finished — is simply followed by the next call, as the dispatcher does every tick).
+    Result: final state, unused outcomes, the `(cu, wg)` hand-outs in order. -/
+def pRun : Nat → PState → List Bool → PState × List Bool × List (Nat × WG)
+  | 0, s, f => (s, f, [])
+  | k + 1, s, f =>
+    match pNext s f with
+    | (s', f', none) => pRun k s' f'
+    | (s', f', some d) => let r := pRun k s' f'; (r.1, r.2.1, d :: r.2.2)
+
 /-! ## line protocol -/
 
 def coordStr (c : Coord) : String := s!"{c.1}.{c.2.1}.{c.2.2}"
